@@ -65,7 +65,7 @@ Section P.
       - cbn [newton_iterates].
         destruct (conv e || isnan e); [reflexivity|].
         destruct (direction e) as [t1|]; [|reflexivity].
-        destruct (nstep_loop N fuel cc constraints x1 t1) as [|x2|] eqn:Hl; try reflexivity.
+        destruct (nstep_loop N fuel cc constraints x1 t1) as [|x2| |] eqn:Hl; try reflexivity.
         destruct (eval x2) as [e2|]; [|reflexivity].
         specialize (IH x2 e2).
         destruct cap as [|cap']; [reflexivity|].
@@ -86,6 +86,71 @@ Section P.
       assert (HL : nstep_loop_late N (S fuel) cc None x1 t1 = LAccept x1).
       { cbn [nstep_loop_late]. unfold nstep_pass_late. rewrite Hs. reflexivity. }
       remember (nstep_loop_late N (S fuel) cc None) as L eqn:EL. clear EL.
+      induction cap as [|cap IH]; intro i.
+      - exists i. cbn. repeat split; lia.
+      - destruct (IH (S i)) as (j & H1 & H2 & H3). exists j.
+        cbn [newton_outer newton_iterates]. rewrite Hc, Hn, Hd, HL, He. cbn [orb].
+        repeat split; [exact H1 | cbn [length]; rewrite H2; reflexivity | lia].
+    Qed.
+
+    (* ---- the line-search branch of newton_min (nstep_ls): one pass, stagnation test right after the step *)
+    Lemma nstep_ls_accept_moved : forall search (x1 t1 x2 : list A),
+      nstep_ls N search x1 t1 = LAccept x2 -> all_eqb N x1 x2 = false.
+    Proof.
+      intros search x1 t1 x2 H. unfold nstep_ls in H.
+      destruct (search x1 t1) as [alpha|]; [|discriminate].
+      destruct (all_eqb N x1 (vsub N x1 (vscale N alpha t1))) eqn:He; [discriminate|].
+      inversion H; subst; exact He.
+    Qed.
+
+    Lemma newton_ls_stall_is_loud_l : forall search cap i (x1 t1 : list A) (alpha : A) (e : E),
+      conv e = false -> isnan e = false -> direction e = Some t1 ->
+      search x1 t1 = Some alpha ->
+      all_eqb N x1 (vsub N x1 (vscale N alpha t1)) = true ->
+      newton_outer E eval conv isnan direction (nstep_ls N search) (S cap) i x1 e = NLineSearchFailed x1 i.
+    Proof.
+      intros search cap i x1 t1 alpha e Hc Hn Hd Hs He.
+      cbn [newton_outer]. rewrite Hc, Hn, Hd. unfold nstep_ls. rewrite Hs, He. reflexivity.
+    Qed.
+
+    Lemma newton_ls_search_error_is_loud_l : forall search cap i (x1 t1 : list A) (e : E),
+      conv e = false -> isnan e = false -> direction e = Some t1 ->
+      search x1 t1 = None ->
+      newton_outer E eval conv isnan direction (nstep_ls N search) (S cap) i x1 e = NSearchErr x1.
+    Proof.
+      intros search cap i x1 t1 e Hc Hn Hd Hs.
+      cbn [newton_outer]. rewrite Hc, Hn, Hd. unfold nstep_ls. rewrite Hs. reflexivity.
+    Qed.
+
+    Lemma newton_ls_iterates_move_l : forall search cap (x1 : list A) (e : E),
+      chain_moves (newton_iterates E eval conv isnan direction (nstep_ls N search) cap x1 e) = true.
+    Proof.
+      intros search. induction cap as [|cap IH]; intros x1 e.
+      - reflexivity.
+      - cbn [newton_iterates].
+        destruct (conv e || isnan e); [reflexivity|].
+        destruct (direction e) as [t1|]; [|reflexivity].
+        destruct (nstep_ls N search x1 t1) as [|x2| |] eqn:Hl; try reflexivity.
+        destruct (eval x2) as [e2|]; [|reflexivity].
+        specialize (IH x2 e2).
+        destruct cap as [|cap']; [reflexivity|].
+        cbn [newton_iterates] in *. cbn [chain_moves].
+        rewrite (nstep_ls_accept_moved _ _ _ _ Hl). simpl negb. rewrite andb_true_l. exact IH.
+    Qed.
+
+    (* the branch WITHOUT the test (the code before the repair): a stalled state uses up any cap *)
+    Lemma newton_ls_notest_spins_l : forall search (x1 t1 : list A) (alpha : A) (e : E),
+      eval x1 = Some e -> conv e = false -> isnan e = false -> direction e = Some t1 ->
+      search x1 t1 = Some alpha -> vsub N x1 (vscale N alpha t1) = x1 ->
+      forall cap i, exists j,
+      newton_outer E eval conv isnan direction (nstep_ls_notest N search) cap i x1 e = NCap x1
+      /\ length (newton_iterates E eval conv isnan direction (nstep_ls_notest N search) cap x1 e) = cap
+      /\ j = (i + cap)%nat.
+    Proof.
+      intros search x1 t1 alpha e He Hc Hn Hd Hs Hx.
+      assert (HL : nstep_ls_notest N search x1 t1 = LAccept x1).
+      { unfold nstep_ls_notest. rewrite Hs, Hx. reflexivity. }
+      remember (nstep_ls_notest N search) as L eqn:EL. clear EL.
       induction cap as [|cap IH]; intro i.
       - exists i. cbn. repeat split; lia.
       - destruct (IH (S i)) as (j & H1 & H2 & H3). exists j.
